@@ -22,7 +22,7 @@ def iter_nodes(tree, ctx=()):
             yield from iter_nodes(n[2], ctx + (("call", n[1], n[4]),))
         elif k == "try":
             yield n, ctx
-            yield from iter_nodes(n[1], ctx + (("try", n[3]),))
+            yield from iter_nodes(n[1], ctx + (("try", n[3], tuple(h[0] for h in n[2])),))
             for h in n[2]:
                 yield from iter_nodes(h[2], ctx + (("except", h[0], h[3]),))
         else:
